@@ -9,7 +9,7 @@
    (kind 0) the verif hooks reach the data writer and the writes of Finalize; the entries of the
    open phase must be "no fault". *)
 From Coq Require Import Strings.String.
-From GoCar Require Import Bytes Varint Cid Header Frame V2Header Index Store Val RunStore Fault.
+From GoCar Require Import Bytes Varint Cid Header Frame V2Header Index Store StoreSpec Val RunStore Fault.
 
 Definition v_fop (op : val) : option fop :=
   let c := vB (vnth 1 op) in
@@ -47,7 +47,7 @@ Section Run.
     let kn := vN (vnth 0 input) in
     let o := v_wopts (vnth 1 input) in
     let roots := vcids (vnth 2 input) in
-    match open_new (kind_of kn) o (is_nil_tag (vnth 2 input)) roots (v_faults (vnth 3 input)) with
+    match fopen kn o (is_nil_tag (vnth 2 input)) roots (v_faults (vnth 3 input)) with
     | Err e => VL [VL [VT "err"; v_err e]; VL []; VB []]
     | Ok s =>
       let '(obs, file) := fsteps kn s (vL (vnth 4 input)) [] in
@@ -65,7 +65,20 @@ Definition obs_out (v : val) : out :=
   else if tag_is r "bool" then OBool (vbool (vnth 1 r))
   else if tag_is r "bytes" then OBytes (vB (vnth 1 r))
   else if tag_is r "err" then OErr EOther
-  else OKeys [].
+  else if tag_is r "size" then OSize (if vbool (vnth 1 r) then (- Z.of_N (vN (vnth 2 r)))%Z else Z.of_N (vN (vnth 2 r)))
+  else OKeys (vcids (vnth 1 r)).
+
+(* equality of results, errors as one class *)
+Definition out_eqb (a b : out) : bool :=
+  match a, b with
+  | ONil, ONil => true
+  | OErr _, OErr _ => true
+  | OBool x, OBool y => Bool.eqb x y
+  | OBytes x, OBytes y => bytes_eqb x y
+  | OSize x, OSize y => (x =? y)%Z
+  | OKeys x, OKeys y => cids_eqb x y
+  | _, _ => false
+  end.
 Definition obs_changed (v : val) : bool := vbool (vnth 1 v).
 Definition obs_nidx (v : val) : N := vN (vnth 2 v).
 
@@ -105,17 +118,14 @@ Fixpoint walk (kn : N) (o : wopts) (start : N) (st : list blk)
           if negb (nidx =? N.of_nat (length st'))
           then inl (fail "index-differs-from-acknowledged-blocks" (fault_class kn))
           else walk kn o start st' t t' fin''
-      | FHas c =>
-          match out with
-          | OBool b => if Bool.eqb b (spec_has o start st c) then walk kn o start st' t t' fin''
-                       else inl (fail "has-disagrees-with-acknowledged-blocks" (fault_class kn))
-          | _ => walk kn o start st' t t' fin''
-          end
-      | FGet c =>
-          match out with
-          | OBytes d => if spec_get_ok o st c d then walk kn o start st' t t' fin''
-                        else inl (fail "get-returned-unacknowledged-data" (fault_class kn))
-          | _ => walk kn o start st' t t' fin''
+      | FHas _ | FGet _ | FGetSize _ | FKeys =>
+          (* C16_reads_refine_map on the implementation: an answer that is not an error is exactly
+             the answer of the reference map holding the acknowledged blocks (an error may also be
+             the closed store, which the predicate does not track) *)
+          match spec_query kn o (mkm st false false) op with
+          | Some r => if is_err out || out_eqb out r then walk kn o start st' t t' fin''
+                      else inl (fail "read-disagrees-with-the-map-of-acknowledged-blocks" (fault_class kn))
+          | None => walk kn o start st' t t' fin''
           end
       | _ => walk kn o start st' t t' fin''
       end
